@@ -19,8 +19,8 @@ VECTOR_KINDS = ('h1', 'hcurl', 'hdiv', 'l2', 'undefined')
 # transcendental constants are outside the model's exchange format
 MTYPES = {
     1: ['sym', 'poly', 'polyneg', 'affine', 'identity'],
-    2: ['sym', 'sym', 'poly', 'poly', 'polyneg', 'polyc', 'affine', 'identity', 'polar', 'target', 'czarny', 'collela'],
-    3: ['sym', 'poly', 'polyneg', 'affine', 'identity', 'torus', 'spherical', 'twisted'],
+    2: ['sym', 'sym', 'poly', 'poly', 'polyneg', 'polyc', 'affine', 'affinef', 'identity', 'polar', 'target', 'czarny', 'collela'],
+    3: ['sym', 'poly', 'polyneg', 'affine', 'affinef', 'identity', 'torus', 'spherical', 'twisted'],
 }
 ORACLE_ONLY = ('collela', 'czarnyf')
 
@@ -91,6 +91,13 @@ class MEnv:
         elif mtype == 'czarny':
             params = dict(c2=0, eps=Rational(1, 10), b=Rational(7, 5))
             M = am.CzarnyMapping(name, **params)
+        elif mtype == 'affinef':
+            # floating-point coefficients with a zero in the second row of the Jacobian (the float
+            # determinant is lowered by a cofactor expansion: seeded change C03-6 chose the sparsest row
+            # with the wrong sign)
+            params = dict(c1=0.5, c2=-1.0, c3=0.25, a11=1.5, a12=0.5, a13=0.0, a21=0.0, a22=2.0, a23=0.0,
+                          a31=0.5, a32=0.0, a33=1.25)
+            M = am.AffineMapping(name, dim=dim, **params)
         elif mtype == 'czarnyf':
             # floating-point parameters (the determinant of a float matrix is numerically delicate)
             params = dict(c2=0.0625, b=2.0, eps=0.46875)
